@@ -301,7 +301,9 @@ def ranged_reads(prog):
             if kind == "suffix":
                 w["suffix"] = g(length)
             return w
-        opened = not any(e[0] == "fs.open" for e in p.events) or True
+        opens = [kw["keys"][0] for n_, a_, kw in p.events if n_ == "fs.open"]
+        if opens and opens[0] != "object_path(bucket,key)":
+            findings.setdefault("read:wrong-file", ("get_object opens %s, not the object path of the addressed bucket and key" % opens[0], {"len": 5, "kind": "none"}))
         file_missing = o == "err" and pay == "NoSuchKey"
         if file_missing or (o == "err" and str(pay).startswith("Error(")):
             continue
